@@ -11,6 +11,7 @@ import (
 	"strconv"
 	"strings"
 
+	"github.com/Dash-Industry-Forum/livesim2/internal/vhook"
 	"github.com/Dash-Industry-Forum/livesim2/pkg/chunkparser"
 	"github.com/Eyevinn/dash-mpd/mpd"
 	"github.com/Eyevinn/mp4ff/bits"
@@ -56,6 +57,7 @@ func (r *Receiver) SegmentHandlerFunc(w http.ResponseWriter, req *http.Request) 
 	}
 	ch, ok := r.channelMgr.GetChannel(stream.chName)
 	if !ok {
+		vhook.Point("recv.before-add-channel")
 		r.channelMgr.AddChannel(r.ctx, stream.chName, stream.chDir)
 		slog.Debug("Created new  channel", "name", stream.chName, "dir", stream.chDir)
 		ch, _ = r.channelMgr.GetChannel(stream.chName)
